@@ -54,8 +54,10 @@ def run_unit(job):
             res = verify(c, case, max_seconds=limit)
             out = res.to_json()
         else:
+            from pyvc.contract import run_lemma
+
             fn = getattr(mod, key)
-            out = fn(case)
+            out = run_lemma(key, fn, case).to_json()
         signal.alarm(0)
         out["wall"] = time.time() - t0
         return out
